@@ -368,8 +368,8 @@ pub fn run(tier: Tier, replay: Option<&str>) {
     }
     let ctx = Ctx::new("C06", tier);
     let th = tier.thorough();
-    let bound = if th { 2 } else { 1 };
-    let depth = if th { 5 } else { 4 };
+    let bound = if crate::ctx::deep() { 3 } else if th { 2 } else { 1 };
+    let depth = if crate::ctx::deep() { 7 } else if th { 5 } else { 4 };
     let starts: Vec<Option<u32>> = if th {
         vec![None, Some(0xFFFE), Some(0xFFFF), Some(0xFFFF_FFFD), Some(0xFFFF_FFFE), Some(0xFFFF_FFFF)]
     } else {
